@@ -339,8 +339,8 @@ func sweepCounts(yield func(discCase) bool) {
 
 func props() []rp.Prop {
 	return []rp.Prop{
-		rp.P[discCase]{Name: "hook-discovery", Checks: ev.Pick(24000, 800000) / ev.Shards(), Gen: genCase("hook"), Check: check},
-		rp.P[discCase]{Name: "socket-discovery", Checks: ev.Pick(320, 9600) / ev.Shards(), Gen: genCase("socket"), Sweep: sweepCounts, Check: check},
+		rp.P[discCase]{Name: "hook-discovery", Checks: ev.Pick(24000, 3000000) / ev.Shards(), Gen: genCase("hook"), Check: check},
+		rp.P[discCase]{Name: "socket-discovery", Checks: ev.Pick(320, 19200) / ev.Shards(), Gen: genCase("socket"), Sweep: sweepCounts, Check: check},
 	}
 }
 
